@@ -1,49 +1,1273 @@
+// Worker for property C18 - peer penalties accumulate into bans that are enforced and expire
+// (pkg/p2p connectionGater, Peer.addPenalty/banPeer, rateLimit, MessageProtocol).
+//
+// Direct tier: connectionGater / rateLimit objects driven without sockets against a small
+// model (per-IP sum, ban threshold 100, blacklist).  "Before / after expiry" is decided from
+// unix seconds recorded around each call: a banned IP MUST be refused only while
+// unix(after the call) <= unix(before the banning call) + expiration, it MUST be accepted
+// again only once the sweeper has had >= 50 intervals (we allow 400) past the latest possible
+// expiry; anything between is counted, not judged.
+// Network tier: real p2p.Connections on 127.0.0.2/3/4; a trigger (malformed envelope, unknown
+// procedure, invalid sync-style request, message rate above the limit, accumulated
+// ApplyPenalty) must leave the sender banned, disconnected and unable to reconnect until the
+// ban expires; legal traffic must leave no score.
 package main
 
 import (
 	"context"
+	"crypto/ed25519"
 	"fmt"
+	"net/netip"
+	"runtime/debug"
+	"sort"
+	"strings"
+	"sync"
+	"sync/atomic"
 	"time"
 
-	"github.com/LiskHQ/lisk-engine/pkg/log"
+	"github.com/libp2p/go-libp2p/core/crypto"
+	"github.com/libp2p/go-libp2p/core/network"
+	"github.com/libp2p/go-libp2p/core/peer"
+	ma "github.com/multiformats/go-multiaddr"
+
 	"github.com/LiskHQ/lisk-engine/pkg/p2p"
+
+	"verifharness/internal/mon"
+	"verifharness/internal/p2pnet"
 )
 
-func main() {
-	lg, _ := log.NewDefaultProductionLogger()
-	t0 := time.Now()
-	mk := func(ip string) *p2p.ExtendedConnection {
-		cfg := &p2p.Config{Addresses: []string{"/ip4/" + ip + "/tcp/0"}, ChainID: []byte{1, 2, 3, 4}, Version: "2.0"}
-		c := p2p.NewExtendedConnection(lg, cfg)
-		c.RegisterRPCHandler("echo", func(w p2p.ResponseWriter, r *p2p.Request) { w.Write(r.Data) })
-		if err := c.Start([]byte(ip)); err != nil {
+const (
+	sweep        = 50 * time.Millisecond
+	graceSweeps  = 400 // must-accept horizon: this many sweep intervals past the latest possible expiry
+	pollInterval = 20 * time.Millisecond
+	watchdog     = 30 * time.Second
+)
+
+func unix() int64 { return time.Now().Unix() }
+
+// ---------------------------------------------------------------------------------------
+// direct tier: gater
+
+// ipForm is one way of writing an IP in a multiaddr; canon is the key the property speaks of.
+type ipForm struct {
+	Addr  string // multiaddr text
+	Canon string // canonical IP (v4-mapped unmapped)
+}
+
+func mkForm(ip string, r interface{ Intn(int) int }) ipForm {
+	a := netip.MustParseAddr(ip)
+	canon := a.Unmap().String()
+	proto := "ip4"
+	txt := a.String()
+	if a.Is6() { // includes v4-mapped
+		proto = "ip6"
+		if a.Is4In6() {
+			txt = "::ffff:" + a.Unmap().String()
+		}
+	}
+	s := "/" + proto + "/" + txt
+	switch r.Intn(4) {
+	case 0:
+		s += fmt.Sprintf("/tcp/%d", 1+r.Intn(65000))
+	case 1:
+		s += fmt.Sprintf("/udp/%d/quic-v1", 1+r.Intn(65000))
+	case 2:
+		s += fmt.Sprintf("/tcp/%d/p2p/%s", 1+r.Intn(65000), fixedPeerIDs[r.Intn(len(fixedPeerIDs))])
+	}
+	return ipForm{Addr: s, Canon: canon}
+}
+
+var fixedPeerIDs = func() []string {
+	var out []string
+	for i := 0; i < 4; i++ {
+		seed := make([]byte, ed25519.SeedSize)
+		seed[0] = byte(i + 1)
+		k := ed25519.NewKeyFromSeed(seed)
+		priv, _, err := crypto.KeyPairFromStdKey(&k)
+		if err != nil {
 			panic(err)
 		}
-		return c
+		id, err := peer.IDFromPrivateKey(priv)
+		if err != nil {
+			panic(err)
+		}
+		out = append(out, id.String())
 	}
-	a := mk("127.0.0.2")
-	b := mk("127.0.0.3")
-	fmt.Println("start", time.Since(t0))
-	t0 = time.Now()
-	if err := a.Connect(context.Background(), *b.Info()); err != nil {
+	return out
+}()
+
+// ipPool: each entry lists equivalent spellings of one IP.
+func genIPs(k *mon.Case, n int) [][]string {
+	var out [][]string
+	used := map[string]bool{}
+	for len(out) < n {
+		var forms []string
+		switch k.R.Intn(3) {
+		case 0, 1: // v4 (+ its v4-mapped v6 spelling)
+			v4 := fmt.Sprintf("%d.%d.%d.%d", 1+k.R.Intn(222), k.R.Intn(256), k.R.Intn(256), 1+k.R.Intn(254))
+			forms = []string{v4, "::ffff:" + v4}
+		default:
+			v6 := fmt.Sprintf("2001:db8:%x:%x::%x", k.R.Intn(0xffff), k.R.Intn(0xffff), 1+k.R.Intn(0xfffe))
+			forms = []string{v6}
+		}
+		c := netip.MustParseAddr(forms[0]).Unmap().String()
+		if used[c] {
+			continue
+		}
+		used[c] = true
+		out = append(out, forms)
+	}
+	return out
+}
+
+type ipModel struct {
+	canon       string
+	sum         int   // accumulated since the last clean state
+	banned      bool  // sum reached 100 at some point since the last clean state
+	banBefore   int64 // unix before the latest call that (re)armed the ban
+	banAfter    int64 // unix after it
+	blacklisted bool
+	maybeSwept  bool // a ban may already have been swept (we are past the guaranteed window)
+}
+
+type gaterRun struct {
+	k     *mon.Case
+	g     *p2p.VerifGater
+	exp   int64 // seconds
+	steps []string
+	mu    sync.Mutex
+}
+
+func (gr *gaterRun) log(f string, a ...any) {
+	gr.mu.Lock()
+	if len(gr.steps) < 60 {
+		gr.steps = append(gr.steps, fmt.Sprintf(f, a...))
+	}
+	gr.mu.Unlock()
+}
+
+func (gr *gaterRun) witness(extra map[string]any) map[string]any {
+	gr.mu.Lock()
+	defer gr.mu.Unlock()
+	w := map[string]any{"expiration_s": gr.exp, "sweep_ms": int(sweep / time.Millisecond), "history": append([]string(nil), gr.steps...)}
+	for k, v := range extra {
+		w[k] = v
+	}
+	return w
+}
+
+type gates struct{ Dial, Accept, SecuredIn, SecuredOut, PeerDial bool }
+
+func (gr *gaterRun) intercept(f ipForm) gates {
+	addr := ma.StringCast(f.Addr)
+	cma := p2pnet.CMA{Remote: addr}
+	return gates{
+		Dial:       gr.g.InterceptAddrDial(peer.ID("x"), addr),
+		Accept:     gr.g.InterceptAccept(cma),
+		SecuredIn:  gr.g.InterceptSecured(network.DirInbound, peer.ID("x"), cma),
+		SecuredOut: gr.g.InterceptSecured(network.DirOutbound, peer.ID("x"), cma),
+		PeerDial:   gr.g.InterceptPeerDial(peer.ID("x")),
+	}
+}
+
+// check calls the gates for one spelling of the IP and judges them against the model.
+func (gr *gaterRun) check(m *ipModel, f ipForm) {
+	k := gr.k
+	gs := gr.intercept(f)
+	after := unix()
+	allAccept := gs.Dial && gs.Accept && gs.SecuredIn
+	allRefuse := !gs.Dial && !gs.Accept && !gs.SecuredIn
+	gr.log("check %s -> dial=%v accept=%v securedIn=%v (unix %d)", f.Addr, gs.Dial, gs.Accept, gs.SecuredIn, after)
+	fam := family(f)
+	switch {
+	case m.blacklisted:
+		k.Count("check_blacklisted", 1)
+		if !allRefuse {
+			k.Violation("blacklisted-ip-accepted:"+fam, "a gate returned true for a permanently blacklisted IP",
+				gr.witness(map[string]any{"addr": f.Addr, "gates": gs}))
+		}
+	case !m.banned:
+		k.Count("check_unbanned", 1)
+		if !allAccept {
+			k.Violation("unbanned-ip-refused:"+fam, "a gate returned false for an IP whose accumulated penalty is below 100 and which is not blacklisted",
+				gr.witness(map[string]any{"addr": f.Addr, "gates": gs, "model_sum": m.sum}))
+		}
+	case after <= m.banBefore+gr.exp:
+		k.Count("check_banned_within_guaranteed_window", 1)
+		if !allRefuse {
+			k.Violation("banned-ip-accepted-before-expiry:"+fam+":"+gateNames(gs), "a gate returned true for an IP whose accumulated penalty reached 100 and whose ban cannot have expired yet",
+				gr.witness(map[string]any{"addr": f.Addr, "gates": gs, "model_sum": m.sum, "ban_before_unix": m.banBefore, "check_after_unix": after}))
+		}
+	default:
+		k.Count("check_in_unjudged_interval_around_expiry", 1)
+		m.maybeSwept = true
+	}
+	if !gs.SecuredOut || !gs.PeerDial {
+		k.Count("outbound_secured_or_peerdial_false", 1)
+	}
+}
+
+func gateNames(g gates) string {
+	var s []string
+	if g.Dial {
+		s = append(s, "InterceptAddrDial")
+	}
+	if g.Accept {
+		s = append(s, "InterceptAccept")
+	}
+	if g.SecuredIn {
+		s = append(s, "InterceptSecured(inbound)")
+	}
+	return strings.Join(s, "+")
+}
+
+func family(f ipForm) string {
+	a := netip.MustParseAddr(f.Canon)
+	switch {
+	case strings.HasPrefix(f.Addr, "/ip6/::ffff:"):
+		return "v4-mapped"
+	case a.Is4():
+		return "v4"
+	default:
+		return "v6"
+	}
+}
+
+// penalty applies one penalty and judges the returned score.
+func (gr *gaterRun) penalty(m *ipModel, f ipForm, amount int) {
+	k := gr.k
+	before := unix()
+	got, err := gr.g.AddPenalty(ma.StringCast(f.Addr), amount)
+	after := unix()
+	gr.log("addPenalty %s %d -> %d err=%v (unix %d..%d)", f.Addr, amount, got, err, before, after)
+	k.Count("penalties", 1)
+	if err != nil {
+		k.Violation("addPenalty-error:"+family(f), "addPenalty returned an error for a plain IP multiaddr on a started gater",
+			gr.witness(map[string]any{"addr": f.Addr, "error": err.Error()}))
+		return
+	}
+	want := m.sum + amount
+	certain := !m.banned || (after <= m.banBefore+gr.exp && !m.maybeSwept)
+	switch {
+	case got == want:
+		m.sum = want
+	case !certain && got == amount:
+		// the earlier ban had been swept: clean restart
+		k.Count("penalty_after_silent_expiry", 1)
+		m.sum, m.banned, m.maybeSwept = amount, false, false
+	default:
+		k.Violation("penalty-not-accumulated:"+family(f), "addPenalty did not return the previous per-IP total plus the penalty",
+			gr.witness(map[string]any{"addr": f.Addr, "amount": amount, "returned": got, "model_total": want, "certain": certain}))
+		m.sum = got
+	}
+	if m.sum >= p2p.MaxPenaltyScore {
+		if !m.banned {
+			k.Count("bans", 1)
+		}
+		m.banned = true
+		m.banBefore, m.banAfter = before, after
+		m.maybeSwept = false
+	}
+}
+
+// awaitExpiry polls until the IP is accepted again; judged only at the horizon.
+func (gr *gaterRun) awaitExpiry(m *ipModel, f ipForm) bool {
+	k := gr.k
+	horizon := m.banAfter + gr.exp + 1 + int64(graceSweeps*sweep/time.Second)
+	for {
+		before := unix()
+		gs := gr.intercept(f)
+		if gs.Dial && gs.Accept && gs.SecuredIn {
+			gr.log("accepted again %s at unix %d (ban armed at %d..%d)", f.Addr, unix(), m.banBefore, m.banAfter)
+			if before < m.banBefore+gr.exp {
+				k.Violation("banned-ip-accepted-before-expiry:"+family(f)+":during-wait", "a banned IP was accepted again before its ban can have expired",
+					gr.witness(map[string]any{"addr": f.Addr, "ban_before_unix": m.banBefore, "accepted_unix": before}))
+			}
+			return true
+		}
+		if before > horizon {
+			k.Violation("ban-never-expires:"+family(f)+":"+gateNames(gs), "a gate still refuses the IP long after its ban expired (>= 400 sweep intervals past the latest possible expiry)",
+				gr.witness(map[string]any{"addr": f.Addr, "gates": gs, "ban_after_unix": m.banAfter, "now_unix": before}))
+			return false
+		}
+		time.Sleep(pollInterval)
+	}
+}
+
+func runGaterSequence(k *mon.Case, sub int) {
+	r := k.R
+	expS := 1 + r.Intn(2)
+	rl := p2pnet.NewRecLogger("gater", nil)
+	g, err := p2p.VerifNewGater(rl, time.Duration(expS)*time.Second, sweep)
+	if err != nil {
 		panic(err)
 	}
-	fmt.Println("connect", time.Since(t0))
-	for _, c := range b.ConnsToPeer(a.ID()) {
-		fmt.Println("b sees a as", c.RemoteMultiaddr(), "local", c.LocalMultiaddr())
-	}
-	for _, c := range a.ConnsToPeer(b.ID()) {
-		fmt.Println("a sees b as", c.RemoteMultiaddr(), "local", c.LocalMultiaddr())
-	}
-	t0 = time.Now()
-	for i := 0; i < 100; i++ {
-		r := a.RequestFrom(context.Background(), b.ID(), "echo", []byte("hi"))
-		if r.Error() != nil {
-			panic(r.Error())
+	gr := &gaterRun{k: k, g: g, exp: int64(expS)}
+	nIP := 1 + r.Intn(5)
+	pool := genIPs(k, nIP)
+	models := make([]*ipModel, nIP)
+	var bl []string
+	for i, forms := range pool {
+		models[i] = &ipModel{canon: netip.MustParseAddr(forms[0]).Unmap().String()}
+		if nIP > 1 && r.Intn(6) == 0 {
+			models[i].blacklisted = true
+			bl = append(bl, forms[r.Intn(len(forms))])
 		}
 	}
-	fmt.Println("100 req", time.Since(t0))
-	t0 = time.Now()
-	fmt.Println(a.Stop(), b.Stop())
-	fmt.Println("stop", time.Since(t0))
+	if err := g.Blacklist(bl); err != nil {
+		k.Violation("blacklist-rejected-valid-ip", "optionWithBlacklist rejected a valid IP literal", gr.witness(map[string]any{"blacklist": bl, "error": err.Error()}))
+		return
+	}
+	ctx, cancel := context.WithCancel(context.Background())
+	var wg sync.WaitGroup
+	defer func() { cancel(); wg.Wait() }()
+
+	// not started: penalties must be refused and must not count
+	if r.Intn(4) == 0 {
+		f := mkForm(pool[0][0], r)
+		if _, err := g.AddPenalty(ma.StringCast(f.Addr), 100); err == nil {
+			k.Violation("penalty-accepted-before-start", "addPenalty succeeded on a gater that was not started", gr.witness(nil))
+		}
+		gr.log("addPenalty before start -> error (expected)")
+	}
+	g.Start(ctx, &wg)
+	gr.log("gater: expiration %ds, blacklist %v, %d IPs", expS, bl, nIP)
+
+	pick := func() (int, ipForm) {
+		i := r.Intn(nIP)
+		return i, mkForm(pool[i][r.Intn(len(pool[i]))], r)
+	}
+	amounts := []int{1, 5, 10, 25, 33, 49, 50, 51, 99, 100, 101, 150}
+	nOps := 6 + r.Intn(20)
+	shape := r.Intn(4) // 0: small steps, 1: exact threshold walks, 2: mixed, 3: mixed + pauses
+	for op := 0; op < nOps; op++ {
+		i, f := pick()
+		m := models[i]
+		switch x := r.Intn(10); {
+		case x < 5:
+			amt := amounts[r.Intn(len(amounts))]
+			switch shape {
+			case 0:
+				amt = 1 + r.Intn(30)
+			case 1:
+				if rest := p2p.MaxPenaltyScore - m.sum; rest > 0 && r.Intn(2) == 0 {
+					amt = rest - r.Intn(2) // land exactly on, or one below, the threshold
+					if amt <= 0 {
+						amt = 1
+					}
+				}
+			}
+			gr.penalty(m, f, amt)
+			gr.check(m, f)
+		case x < 9:
+			gr.check(m, f)
+		default:
+			if shape == 3 {
+				time.Sleep(time.Duration(r.Intn(400)) * time.Millisecond)
+			}
+		}
+	}
+	// every IP once more, in every spelling
+	for i, forms := range pool {
+		for _, s := range forms {
+			gr.check(models[i], mkForm(s, r))
+		}
+	}
+	// listBannedPeers agrees with the model where the model is certain
+	now := unix()
+	listed := map[string]bool{}
+	for _, ip := range g.ListBanned() {
+		listed[netip.MustParseAddr(ip.String()).Unmap().String()] = true
+	}
+	for _, m := range models {
+		if m.banned && now <= m.banBefore+gr.exp && !listed[m.canon] {
+			k.Violation("banned-ip-missing-from-listBannedPeers", "listBannedPeers does not list an IP whose ban cannot have expired",
+				gr.witness(map[string]any{"ip": m.canon}))
+		}
+		if !m.banned && listed[m.canon] {
+			k.Violation("unbanned-ip-in-listBannedPeers", "listBannedPeers lists an IP whose accumulated penalty is below 100",
+				gr.witness(map[string]any{"ip": m.canon, "model_sum": m.sum}))
+		}
+	}
+
+	// expiry for one banned IP (half of the sequences that have one)
+	var bannedIdx []int
+	for i, m := range models {
+		if m.banned && !m.blacklisted {
+			bannedIdx = append(bannedIdx, i)
+		}
+	}
+	expired := false
+	if len(bannedIdx) > 0 && r.Intn(2) == 0 {
+		i := bannedIdx[r.Intn(len(bannedIdx))]
+		m := models[i]
+		f := mkForm(pool[i][r.Intn(len(pool[i]))], r)
+		if gr.awaitExpiry(m, f) {
+			expired = true
+			k.Count("expiries_observed", 1)
+			if sc, ex, ok := g.Score(m.canon); ok {
+				k.Violation("score-not-clean-after-expiry:"+family(f), "after the ban expired and the IP is accepted again the gater still holds a score for it",
+					gr.witness(map[string]any{"ip": m.canon, "score": sc, "expiration": ex}))
+			}
+			m.sum, m.banned, m.maybeSwept = 0, false, false
+			f2 := mkForm(pool[i][r.Intn(len(pool[i]))], r)
+			gr.penalty(m, f2, 99)
+			gr.check(m, f2)
+			gr.penalty(m, f, 1)
+			gr.check(m, f)
+			// other IPs keep their state
+			for j, forms := range pool {
+				if j != i {
+					gr.check(models[j], mkForm(forms[0], r))
+				}
+			}
+		}
+	}
+	// blacklisted IPs stay refused whatever happened
+	for i, forms := range pool {
+		if models[i].blacklisted {
+			gr.check(models[i], mkForm(forms[r.Intn(len(forms))], r))
+		}
+	}
+	nb := 0
+	for _, m := range models {
+		if m.banned {
+			nb++
+		}
+	}
+	k.Nontrivial(fmt.Sprintf("ips=%d|bl=%d|banned=%d|shape=%d|expired=%v|exp=%d|ops=%d", nIP, len(bl), nb, shape, expired, expS, nOps/4))
+	if sub == 0 {
+		k.Sample(gr.witness(map[string]any{"ips": pool, "blacklist": bl}))
+	}
+}
+
+// ---------------------------------------------------------------------------------------
+// direct tier: concurrent callers on one gater
+
+type concOp struct {
+	T0, T1 int64 // logical ticks around the call
+	U0, U1 int64 // unix around the call
+	IP     int
+	Amount int // 0 = check
+	Score  int
+	Accept bool
+	Refuse bool
+}
+
+func runGaterConcurrent(k *mon.Case, sub int) {
+	r := k.R
+	const expS = 3
+	g, err := p2p.VerifNewGater(p2pnet.NewRecLogger("gater", nil), expS*time.Second, sweep)
+	if err != nil {
+		panic(err)
+	}
+	gr := &gaterRun{k: k, g: g, exp: expS}
+	ctx, cancel := context.WithCancel(context.Background())
+	var swg sync.WaitGroup
+	defer func() { cancel(); swg.Wait() }()
+	g.Start(ctx, &swg)
+
+	nIP := 1 + r.Intn(3)
+	pool := genIPs(k, nIP)
+	workers := 2 + r.Intn(7)
+	perWorker := 4 + r.Intn(10)
+	type job struct {
+		ip     int
+		form   ipForm
+		amount int
+	}
+	jobs := make([][]job, workers)
+	for w := range jobs {
+		for j := 0; j < perWorker; j++ {
+			ip := r.Intn(nIP)
+			jb := job{ip: ip, form: mkForm(pool[ip][r.Intn(len(pool[ip]))], r)}
+			if r.Intn(3) != 0 {
+				jb.amount = 1 + r.Intn(40)
+			}
+			jobs[w] = append(jobs[w], jb)
+		}
+	}
+	startUnix := unix()
+	ops := make([][]concOp, workers)
+	var wg sync.WaitGroup
+	start := make(chan struct{})
+	for w := 0; w < workers; w++ {
+		w := w
+		wg.Add(1)
+		go func() {
+			defer wg.Done()
+			<-start
+			for _, jb := range jobs[w] {
+				o := concOp{IP: jb.ip, Amount: jb.amount}
+				o.U0 = unix()
+				o.T0 = p2pnet.Tick()
+				if jb.amount > 0 {
+					sc, err := g.AddPenalty(ma.StringCast(jb.form.Addr), jb.amount)
+					if err != nil {
+						sc = -1
+					}
+					o.Score = sc
+				} else {
+					gs := gr.intercept(jb.form)
+					o.Accept = gs.Dial && gs.Accept && gs.SecuredIn
+					o.Refuse = !gs.Dial && !gs.Accept && !gs.SecuredIn
+				}
+				o.T1 = p2pnet.Tick()
+				o.U1 = unix()
+				ops[w] = append(ops[w], o)
+				if len(jobs[w])%2 == 0 {
+					// let the other callers in
+					time.Sleep(time.Duration(w) * 50 * time.Microsecond)
+				}
+			}
+		}()
+	}
+	k.Watch("concurrent gater callers", watchdog, func() { close(start); wg.Wait() })
+	endUnix := unix()
+	var all []concOp
+	for _, o := range ops {
+		all = append(all, o...)
+	}
+	k.Count("concurrent_ops", len(all))
+	// no entry of this phase can have been swept if the phase ended within the expiration
+	if endUnix > startUnix+expS {
+		k.Inconclusive("concurrent-phase-longer-than-expiration")
+		return
+	}
+	nBanned := 0
+	for ip := 0; ip < nIP; ip++ {
+		var pens, checks []concOp
+		for _, o := range all {
+			if o.IP != ip {
+				continue
+			}
+			if o.Amount > 0 {
+				pens = append(pens, o)
+			} else {
+				checks = append(checks, o)
+			}
+		}
+		wit := func(extra map[string]any) map[string]any {
+			w := map[string]any{"ip_spellings": pool[ip], "penalty_calls": pens, "check_calls": checks, "workers": workers}
+			for a, b := range extra {
+				w[a] = b
+			}
+			return w
+		}
+		// returned totals are the prefix sums of some order of the amounts ...
+		sort.Slice(pens, func(i, j int) bool { return pens[i].Score < pens[j].Score })
+		prev := 0
+		okLin := true
+		for _, o := range pens {
+			if o.Score-prev != o.Amount {
+				okLin = false
+			}
+			prev = o.Score
+		}
+		// ... that respects real time
+		for i := range pens {
+			for j := range pens {
+				if pens[i].T1 < pens[j].T0 && pens[i].Score >= pens[j].Score {
+					okLin = false
+				}
+			}
+		}
+		if !okLin {
+			k.Violation("concurrent-penalties-not-linearizable", "the totals returned by concurrent addPenalty calls for one IP are not the running sums of any order of the penalties consistent with real time (lost or duplicated update)",
+				wit(nil))
+			continue
+		}
+		// gates: banArmed = the call that returned the first total >= 100
+		var arm *concOp
+		for i := range pens {
+			if pens[i].Score >= p2p.MaxPenaltyScore {
+				arm = &pens[i]
+				break
+			}
+		}
+		if arm != nil {
+			nBanned++
+		}
+		for _, c := range checks {
+			mixed := !c.Accept && !c.Refuse
+			switch {
+			case arm == nil:
+				if !c.Accept {
+					k.Violation("unbanned-ip-refused:concurrent", "a gate refused an IP whose penalties never reached 100", wit(map[string]any{"check": c}))
+				}
+			case c.T1 < arm.T0:
+				if !c.Accept {
+					k.Violation("unbanned-ip-refused:concurrent", "a gate refused an IP before the penalty call that made its total reach 100 had even started", wit(map[string]any{"check": c, "arming_call": *arm}))
+				}
+			case c.T0 > arm.T1 && c.U1 <= arm.U0+expS:
+				if !c.Refuse {
+					k.Violation("banned-ip-accepted-before-expiry:concurrent", "a gate accepted an IP after the penalty call that made its total reach 100 had returned", wit(map[string]any{"check": c, "arming_call": *arm}))
+				}
+			default:
+				if mixed {
+					k.Count("concurrent_check_overlapping_ban_mixed_gates", 1)
+				}
+			}
+		}
+	}
+	k.Nontrivial(fmt.Sprintf("conc|ips=%d|workers=%d|banned=%d|ops=%d", nIP, workers, nBanned, len(all)/16))
+	if sub == 0 {
+		k.Sample(map[string]any{"ips": pool, "workers": workers, "ops": len(all), "banned_ips": nBanned})
+	}
+}
+
+// ---------------------------------------------------------------------------------------
+// direct tier: rate limiter object on a Peer without sockets
+
+func runRateLimitDirect(k *mon.Case) {
+	r := k.R
+	ctx, cancel := context.WithCancel(context.Background())
+	var wg sync.WaitGroup
+	lg := p2pnet.NewRecLogger("rl", nil)
+	pr, err := p2p.VerifNewPeer(ctx, &wg, lg, []byte(fmt.Sprintf("rl-%d", k.Index)), &p2p.Config{ChainID: p2pnet.ChainID, Version: p2pnet.Version})
+	if err != nil {
+		cancel()
+		k.Inconclusive("peer-create-failed")
+		return
+	}
+	defer func() { cancel(); _ = pr.VerifClose(); wg.Wait() }()
+	limit := 1 + r.Intn(8)
+	penalty := []int{10, 25, 34, 50, 100}[r.Intn(5)]
+	procsN := 1 + r.Intn(2)
+	procs := []string{"p0", "p1"}[:procsN]
+	rl, err := p2p.VerifNewRateLimit(lg, pr, procs, limit, penalty)
+	if err != nil {
+		panic(err)
+	}
+	g := pr.VerifGater()
+	nPeers := 1 + r.Intn(3)
+	ips := genIPs(k, nPeers)
+	type pm struct {
+		id    peer.ID
+		addr  ma.Multiaddr
+		canon string
+		cnt   map[string]int
+	}
+	peers := make([]*pm, nPeers)
+	for i := range peers {
+		id, _ := peer.Decode(fixedPeerIDs[i])
+		f := ipForm{Canon: netip.MustParseAddr(ips[i][0]).Unmap().String()}
+		proto := "ip4"
+		if netip.MustParseAddr(ips[i][0]).Is6() {
+			proto = "ip6"
+		}
+		peers[i] = &pm{id: id, addr: ma.StringCast(fmt.Sprintf("/%s/%s/tcp/%d", proto, ips[i][0], 4000+i)), canon: f.Canon, cnt: map[string]int{}}
+	}
+	score := map[string]int{}
+	var hist []string
+	n := 10 + r.Intn(60)
+	maxScore := 0
+	for step := 0; step < n; step++ {
+		p := peers[r.Intn(nPeers)]
+		proc := procs[r.Intn(procsN)]
+		// exactly what onRequest/onResponse do for one message
+		rl.IncreaseCounter(proc, p.id)
+		err := rl.CheckLimit(proc, p.id, p.addr)
+		p.cnt[proc]++
+		penalised := false
+		if p.cnt[proc] > limit {
+			score[p.canon] += penalty
+			p.cnt[proc] = 0
+			penalised = true
+		}
+		if len(hist) < 80 {
+			hist = append(hist, fmt.Sprintf("msg %s from %s -> err=%v model: counter=%d score=%d penalised=%v", proc, p.canon, err, p.cnt[proc], score[p.canon], penalised))
+		}
+		k.Count("ratelimit_direct_messages", 1)
+		if penalised {
+			k.Count("ratelimit_direct_penalties", 1)
+		}
+		gotCnt := rl.Counter(proc, p.id)
+		gotScore, gotExp, has := g.Score(p.canon)
+		wit := map[string]any{"limit": limit, "penalty": penalty, "history": hist, "peer_ip": p.canon, "procedure": proc,
+			"counter": gotCnt, "model_counter": p.cnt[proc], "score": gotScore, "has_entry": has, "model_score": score[p.canon], "error": fmt.Sprint(err)}
+		if err != nil {
+			k.Violation("ratelimit-checkLimit-error", "checkLimit returned an error for a well-formed peer address", wit)
+			return
+		}
+		if gotCnt != p.cnt[proc] {
+			k.Violation("ratelimit-counter-mismatch", "the per-peer message counter differs from the number of messages since the last penalty/reset", wit)
+			return
+		}
+		if gotScore != score[p.canon] || (has != (score[p.canon] > 0)) {
+			key := "ratelimit-penalty-missing-or-wrong-above-limit"
+			if score[p.canon] == 0 {
+				key = "ratelimit-penalty-within-limit"
+			}
+			k.Violation(key, "the score of the sender's IP differs from penalty x (number of times its counter exceeded the limit)", wit)
+			return
+		}
+		banned := gotExp != -1 && has
+		if banned != (score[p.canon] >= p2p.MaxPenaltyScore) {
+			k.Violation("ratelimit-ban-threshold", "the sender's IP is banned although its score is below 100, or not banned although it reached 100", wit)
+			return
+		}
+		if score[p.canon] > maxScore {
+			maxScore = score[p.canon]
+		}
+	}
+	k.Nontrivial(fmt.Sprintf("rl|limit=%d|penalty=%d|peers=%d|procs=%d|max=%d", limit, penalty, nPeers, procsN, maxScore/50))
+	k.Sample(map[string]any{"limit": limit, "penalty": penalty, "peers": nPeers, "messages": n, "history_head": hist[:min(len(hist), 6)]})
+}
+
+// ---------------------------------------------------------------------------------------
+// network tier
+
+const (
+	netExp     = 4 // seconds
+	netTimeout = 300 * time.Millisecond
+	rlLimit    = 5
+)
+
+type netScenario struct {
+	k        *mon.Case
+	trigger  string
+	V, O, B  *p2pnet.Node
+	served   atomic.Int64 // V's "ok" handler invocations for requests from O
+	servedB  atomic.Int64
+	hist     []string
+	hmu      sync.Mutex
+	gctx     context.Context
+	gcancel  context.CancelFunc
+	gwg      sync.WaitGroup
+	rlPen    int
+	interval time.Duration
+}
+
+func (ns *netScenario) log(f string, a ...any) {
+	ns.hmu.Lock()
+	if len(ns.hist) < 80 {
+		ns.hist = append(ns.hist, fmt.Sprintf("[unix %d] ", unix())+fmt.Sprintf(f, a...))
+	}
+	ns.hmu.Unlock()
+}
+
+func (ns *netScenario) wit(extra map[string]any) map[string]any {
+	ns.hmu.Lock()
+	defer ns.hmu.Unlock()
+	w := map[string]any{"trigger": ns.trigger, "victim": "127.0.0.2", "offender": "127.0.0.3", "ban_expiration_s": netExp, "history": append([]string(nil), ns.hist...),
+		"victim_log_counts": ns.V.Logger.Counts()}
+	for a, b := range extra {
+		w[a] = b
+	}
+	return w
+}
+
+func waitUntil(d time.Duration, cond func() bool) bool {
+	deadline := time.Now().Add(d)
+	for {
+		if cond() {
+			return true
+		}
+		if time.Now().After(deadline) {
+			return false
+		}
+		time.Sleep(pollInterval)
+	}
+}
+
+func (ns *netScenario) startNode(ip string, victim bool, blacklist []string) (*p2pnet.Node, error) {
+	return p2pnet.StartNode(p2pnet.NodeOptions{
+		IP: ip, Seed: "c18-" + ip, Blacklist: blacklist,
+		Setup: func(c *p2p.ExtendedConnection) {
+			lim, pen := 1<<30, 0
+			if victim {
+				lim, pen = rlLimit, ns.rlPen
+			}
+			must(c.RegisterRPCHandler("ok", func(w p2p.ResponseWriter, req *p2p.Request) {
+				if victim {
+					if ns.O != nil && req.PeerID == ns.O.ID() {
+						ns.served.Add(1)
+					} else {
+						ns.servedB.Add(1)
+					}
+				}
+				w.Write([]byte("ok"))
+			}, p2p.WithRPCMessageCounter(lim, pen)))
+			// sync-style endpoint: like pkg/consensus/sync it bans the sender of an invalid request
+			must(c.RegisterRPCHandler("getBlocksFromID", func(w p2p.ResponseWriter, req *p2p.Request) {
+				if len(req.Data) != 34 || req.Data[0] != 0x0a || req.Data[1] != 0x20 { // {1: bytes(32)}
+					c.BanPeer(req.PeerID)
+					return
+				}
+				w.Write([]byte("blocks"))
+			}, p2p.WithRPCMessageCounter(1<<30, 0)))
+			c.VerifMessageProtocol().VerifSetTimeout(netTimeout)
+			if victim && ns.interval > 0 {
+				c.VerifMessageProtocol().VerifSetRateInterval(ns.interval)
+			}
+		},
+	})
+}
+
+func must(err error) {
+	if err != nil {
+		panic(err)
+	}
+}
+
+func (ns *netScenario) raw(from, to *p2pnet.Node, response bool, wire []byte) error {
+	ctx, cancel := context.WithTimeout(context.Background(), 10*time.Second)
+	defer cancel()
+	pid := p2p.VerifReqProtocolID(p2pnet.ChainID, p2pnet.Version)
+	if response {
+		pid = p2p.VerifResProtocolID(p2pnet.ChainID, p2pnet.Version)
+	}
+	s, err := from.Conn.NewStream(ctx, to.ID(), pid)
+	if err != nil {
+		return err
+	}
+	if _, err := s.Write(wire); err != nil {
+		_ = s.Reset()
+		return err
+	}
+	return s.Close()
+}
+
+// request sends one well-formed request under the deadlock rule.
+func (ns *netScenario) request(from, to *p2pnet.Node, proc string, data []byte) (string, error) {
+	var resp p2p.Response
+	ns.k.Watch("RequestFrom", watchdog, func() {
+		ctx, cancel := context.WithTimeout(context.Background(), 5*time.Second)
+		defer cancel()
+		resp = from.Conn.RequestFrom(ctx, to.ID(), proc, data)
+	})
+	return string(resp.Data()), resp.Error()
+}
+
+func (ns *netScenario) bannedAtV(ip string) bool {
+	for _, b := range ns.V.Conn.VerifPeer().VerifGater().ListBanned() {
+		if b.String() == ip {
+			return true
+		}
+	}
+	return false
+}
+
+func (ns *netScenario) stop() {
+	for _, n := range []*p2pnet.Node{ns.O, ns.B, ns.V} {
+		if n != nil {
+			n.Stop()
+		}
+	}
+	if ns.gcancel != nil {
+		ns.gcancel()
+		ns.gwg.Wait()
+	}
+}
+
+var triggers = []string{
+	"malformed-request-envelope", "unknown-procedure-request", "malformed-response-envelope", "unknown-procedure-response",
+	"invalid-sync-request:nil-data", "invalid-sync-request:undecodable", "invalid-sync-request:wrong-id-length",
+	"rate-limit:penalty-100", "rate-limit:penalty-50x2", "apply-penalty:accumulated", "ban-peer-api",
+}
+
+func runNetBan(k *mon.Case) {
+	ns := &netScenario{k: k, trigger: triggers[k.Index%len(triggers)], rlPen: 100, interval: time.Hour}
+	if ns.trigger == "rate-limit:penalty-50x2" {
+		ns.rlPen = 50
+	}
+	r := k.R
+	withB := r.Intn(2) == 0
+	var err error
+	defer ns.stop()
+	if ns.V, err = ns.startNode("127.0.0.2", true, nil); err == nil {
+		ns.gctx, ns.gcancel = context.WithCancel(context.Background())
+		ns.V.Conn.VerifPeer().VerifGater().Retune(ns.gctx, &ns.gwg, netExp*time.Second, sweep)
+		if ns.O, err = ns.startNode("127.0.0.3", false, nil); err == nil && withB {
+			ns.B, err = ns.startNode("127.0.0.4", false, nil)
+		}
+	}
+	if err != nil {
+		k.Inconclusive("node-start-failed")
+		return
+	}
+	bg := context.Background()
+	// who dials whom is part of the case
+	oDials := r.Intn(2) == 0
+	if oDials {
+		err = ns.O.ConnectTo(bg, ns.V)
+	} else {
+		err = ns.V.ConnectTo(bg, ns.O)
+	}
+	if err == nil && withB {
+		err = ns.B.ConnectTo(bg, ns.V)
+	}
+	if err != nil {
+		k.Inconclusive("connect-failed")
+		return
+	}
+	var seenAs []string
+	for _, c := range ns.V.Conn.ConnsToPeer(ns.O.ID()) {
+		seenAs = append(seenAs, c.RemoteMultiaddr().String())
+	}
+	ns.log("V sees O as %v (dialled by offender: %v)", seenAs, oDials)
+	offIP := "127.0.0.3"
+	if len(seenAs) == 0 || !strings.HasPrefix(seenAs[0], "/ip4/"+offIP+"/") {
+		k.Inconclusive("offender-not-seen-under-its-own-loopback-ip")
+		return
+	}
+	g := ns.V.Conn.VerifPeer().VerifGater()
+
+	// legal traffic first: must leave no trace
+	nLegal := 1 + r.Intn(rlLimit-1)
+	if strings.HasPrefix(ns.trigger, "rate-limit") {
+		nLegal = 0
+	}
+	for i := 0; i < nLegal; i++ {
+		if d, err := ns.request(ns.O, ns.V, "ok", []byte("hello")); err != nil || d != "ok" {
+			k.Count("legal_request_failed_not_judged", 1)
+		}
+	}
+	if _, _, has := g.Score(offIP); has {
+		k.Violation("legal-traffic-penalised:requests-within-limit", "well-formed requests within the rate limit left a score for the sender", ns.wit(map[string]any{"requests": nLegal, "limit": rlLimit}))
+		return
+	}
+	k.Count("legal_requests", nLegal)
+
+	// the offence
+	banBefore := unix()
+	garbage := []byte{0xff, 0xff, 0xff, 0xff, 0x07}
+	sent := 0
+	switch ns.trigger {
+	case "malformed-request-envelope":
+		err = ns.raw(ns.O, ns.V, false, garbage)
+	case "unknown-procedure-request":
+		err = ns.raw(ns.O, ns.V, false, p2p.VerifEncodeRequest("11111111-2222-3333-4444-555555555555", "noSuchProcedure", []byte("x")))
+	case "malformed-response-envelope":
+		err = ns.raw(ns.O, ns.V, true, garbage)
+	case "unknown-procedure-response":
+		err = ns.raw(ns.O, ns.V, true, p2p.VerifEncodeResponse("11111111-2222-3333-4444-555555555555", "noSuchProcedure", []byte("x"), ""))
+	case "invalid-sync-request:nil-data":
+		_, _ = ns.request(ns.O, ns.V, "getBlocksFromID", nil)
+	case "invalid-sync-request:undecodable":
+		_, _ = ns.request(ns.O, ns.V, "getBlocksFromID", []byte{0x0a, 0xff, 0x01})
+	case "invalid-sync-request:wrong-id-length":
+		_, _ = ns.request(ns.O, ns.V, "getBlocksFromID", append([]byte{0x0a, 0x1f}, make([]byte, 31)...))
+	case "rate-limit:penalty-100", "rate-limit:penalty-50x2":
+		need := rlLimit + 1
+		if ns.rlPen == 50 {
+			need = 2 * (rlLimit + 1)
+		}
+		for i := 0; i < need; i++ {
+			_, e := ns.request(ns.O, ns.V, "ok", []byte("hello"))
+			sent++
+			// before the last message the score must be exactly penalty x floor(sent/(limit+1))
+			if i < need-1 {
+				want := ns.rlPen * (sent / (rlLimit + 1))
+				got, _, _ := g.Score(offIP)
+				if cnt, _ := ns.V.Conn.VerifMessageProtocol().VerifRateCounter("ok", ns.O.ID()); got != want {
+					k.Violation("rate-limit-score-wrong", "after n well-formed requests in one interval the sender's score is not penalty x floor(n/(limit+1))",
+						ns.wit(map[string]any{"sent": sent, "limit": rlLimit, "penalty": ns.rlPen, "score": got, "want": want, "counter": cnt, "last_error": fmt.Sprint(e)}))
+					return
+				}
+			}
+		}
+	case "apply-penalty:accumulated":
+		a := 1 + r.Intn(98)
+		ns.V.Conn.ApplyPenalty(ns.O.ID(), a)
+		if ns.bannedAtV(offIP) || !ns.V.Connected(ns.O) {
+			k.Violation("sub-threshold-penalty-banned-or-disconnected", "a penalty below 100 banned or disconnected the peer", ns.wit(map[string]any{"penalty": a}))
+			return
+		}
+		if d, err := ns.request(ns.O, ns.V, "ok", []byte("hello")); err != nil || d != "ok" {
+			k.Count("legal_request_failed_not_judged", 1)
+		}
+		banBefore = unix()
+		ns.V.Conn.ApplyPenalty(ns.O.ID(), p2p.MaxPenaltyScore-a)
+	case "ban-peer-api":
+		ns.V.Conn.BanPeer(ns.O.ID())
+	}
+	ns.log("offence %q done (raw send error: %v)", ns.trigger, err)
+	if err != nil {
+		k.Inconclusive("offence-could-not-be-sent")
+		return
+	}
+	k.Count("offences:"+ns.trigger, 1)
+
+	// (a) penalised up to a ban
+	if !waitUntil(watchdog, func() bool { return ns.bannedAtV(offIP) }) {
+		sc, ex, has := g.Score(offIP)
+		k.Violation("offence-did-not-ban:"+ns.trigger, "the offence did not leave the sender's IP banned (waited 30 s)", ns.wit(map[string]any{"score": sc, "expiration": ex, "has_entry": has}))
+		return
+	}
+	ns.log("V lists %s as banned", offIP)
+
+	// (b) disconnected
+	disconnected := waitUntil(10*time.Second, func() bool { return !ns.V.Connected(ns.O) })
+	if !disconnected {
+		before := ns.served.Load()
+		d, e := ns.request(ns.O, ns.V, "ok", []byte("hello"))
+		servedAfterBan := ns.served.Load() > before
+		ns.log("still connected 10 s after the ban; a further request was served by V: %v (reply %q, err %v)", servedAfterBan, d, e)
+		k.Violation("banned-peer-not-disconnected:"+ns.trigger, "the sender's IP is banned but the connection to it stays open (and keeps being served)",
+			ns.wit(map[string]any{"request_served_after_ban": servedAfterBan, "reply": d, "error": fmt.Sprint(e), "banPeer_errors_logged_by_victim": ns.V.Logger.Count("banpeer-error")}))
+		// continue with the remaining clauses from a disconnected state
+		_ = ns.V.Conn.Disconnect(ns.O.ID())
+		if !waitUntil(10*time.Second, func() bool { return !ns.V.Connected(ns.O) && !ns.O.Connected(ns.V) }) {
+			k.Inconclusive("could-not-force-disconnect")
+			return
+		}
+	} else {
+		k.Count("disconnected_after_ban", 1)
+	}
+	waitUntil(5*time.Second, func() bool { return !ns.O.Connected(ns.V) })
+
+	// (c) bystander unaffected
+	if ns.B != nil {
+		if !ns.V.Connected(ns.B) {
+			k.Violation("bystander-disconnected", "banning one IP disconnected a peer on another IP", ns.wit(nil))
+		} else if d, e := ns.request(ns.B, ns.V, "ok", []byte("hello")); e != nil || d != "ok" {
+			k.Count("bystander_request_failed_not_judged", 1)
+		} else {
+			k.Count("bystander_served", 1)
+		}
+		if _, _, has := g.Score("127.0.0.4"); has {
+			k.Violation("bystander-penalised", "banning one IP left a score for another IP", ns.wit(nil))
+		}
+	}
+
+	// (d) cannot reconnect in either direction while the ban cannot have expired
+	for i := 0; i < 2; i++ {
+		for _, dir := range []string{"offender-dials", "victim-dials"} {
+			var e error
+			cctx, ccancel := context.WithTimeout(bg, 3*time.Second)
+			if dir == "offender-dials" {
+				e = ns.O.ConnectTo(cctx, ns.V)
+			} else {
+				e = ns.V.ConnectTo(cctx, ns.O)
+			}
+			ccancel()
+			// a connection that the victim's gater refuses may exist for an instant on the dialler's side; what counts is the victim
+			up := e == nil && !waitUntil(300*time.Millisecond, func() bool { return !ns.V.Connected(ns.O) })
+			after := unix()
+			ns.log("reconnect %s -> err=%v, connection up at V: %v", dir, e, up)
+			if after <= banBefore+netExp {
+				k.Count("reconnect_attempts_within_guaranteed_window", 1)
+				if up {
+					k.Violation("banned-peer-reconnected-before-expiry:"+dir, "a connection with a banned IP was established before the ban can have expired",
+						ns.wit(map[string]any{"ban_before_unix": banBefore, "attempt_after_unix": after}))
+					return
+				}
+			} else {
+				k.Count("reconnect_attempts_in_unjudged_interval", 1)
+				if up {
+					_ = ns.V.Conn.Disconnect(ns.O.ID())
+				}
+			}
+		}
+	}
+
+	// (e) after expiry: accepted again with a clean score
+	banAfter := unix() // upper bound of the last (re)arming: nothing has penalised O since the offence was processed
+	horizon := banAfter + netExp + 1 + int64(graceSweeps*sweep/time.Second)
+	reconnected := false
+	for {
+		now := unix()
+		if !ns.bannedAtV(offIP) {
+			cctx, ccancel := context.WithTimeout(bg, 3*time.Second)
+			e := ns.O.ConnectTo(cctx, ns.V)
+			ccancel()
+			if e == nil && ns.V.Connected(ns.O) {
+				reconnected = true
+				break
+			}
+			ns.log("ban gone but reconnect failed: %v", e)
+		}
+		if now > horizon {
+			break
+		}
+		time.Sleep(100 * time.Millisecond)
+	}
+	if !reconnected {
+		sc, ex, has := g.Score(offIP)
+		k.Violation("ban-never-expires:network", "long after the ban expired the offender is still listed as banned or still cannot connect",
+			ns.wit(map[string]any{"score": sc, "expiration": ex, "has_entry": has, "still_listed": ns.bannedAtV(offIP)}))
+		return
+	}
+	k.Count("reconnected_after_expiry", 1)
+	if sc, ex, has := g.Score(offIP); has {
+		k.Violation("score-not-clean-after-expiry:network", "after the ban expired the gater still holds a score for the IP", ns.wit(map[string]any{"score": sc, "expiration": ex}))
+		return
+	}
+	ns.V.Conn.ApplyPenalty(ns.O.ID(), 99)
+	if ns.bannedAtV(offIP) || !ns.V.Connected(ns.O) {
+		k.Violation("score-not-clean-after-expiry:network", "after the ban expired a penalty of 99 banned the peer again", ns.wit(nil))
+		return
+	}
+	if d, e := ns.request(ns.O, ns.V, "ok", []byte("hello")); e == nil && d == "ok" {
+		k.Count("served_again_after_expiry", 1)
+	}
+	k.Nontrivial(fmt.Sprintf("net|%s|bystander=%v|odials=%v|disconnected=%v", ns.trigger, withB, oDials, disconnected))
+	k.Sample(ns.wit(nil))
+}
+
+// runNetLegal: exactly `limit` well-formed messages per interval, over several intervals, plus a
+// sub-threshold penalty, must not ban, disconnect or (for the traffic) leave any score.
+func runNetLegal(k *mon.Case) {
+	ns := &netScenario{k: k, trigger: "legal-traffic", rlPen: 100, interval: 400 * time.Millisecond}
+	var err error
+	defer ns.stop()
+	if ns.V, err = ns.startNode("127.0.0.2", true, nil); err == nil {
+		ns.O, err = ns.startNode("127.0.0.3", false, nil)
+	}
+	if err != nil {
+		k.Inconclusive("node-start-failed")
+		return
+	}
+	if err := ns.O.ConnectTo(context.Background(), ns.V); err != nil {
+		k.Inconclusive("connect-failed")
+		return
+	}
+	g := ns.V.Conn.VerifPeer().VerifGater()
+	mp := ns.V.Conn.VerifMessageProtocol()
+	intervals := 2 + k.R.Intn(3)
+	okIntervals := 0
+	for iv := 0; iv < intervals; iv++ {
+		// wait for a reset (counter back to 0) so that the burst starts in a fresh interval
+		if !waitUntil(10*time.Second, func() bool { c, _ := mp.VerifRateCounter("ok", ns.O.ID()); return c == 0 }) {
+			k.Inconclusive("rate-counter-never-reset")
+			return
+		}
+		n := rlLimit
+		if k.R.Intn(3) == 0 {
+			n = 1 + k.R.Intn(rlLimit)
+		}
+		maxSeen := 0
+		for i := 0; i < n; i++ {
+			_, _ = ns.request(ns.O, ns.V, "ok", []byte("hello"))
+			if c, _ := mp.VerifRateCounter("ok", ns.O.ID()); c > maxSeen {
+				maxSeen = c
+			}
+		}
+		ns.log("interval %d: %d requests, highest counter seen %d", iv, n, maxSeen)
+		k.Count("legal_requests", n)
+		if maxSeen <= rlLimit {
+			okIntervals++
+		}
+		if sc, ex, has := g.Score("127.0.0.3"); has {
+			k.Violation("legal-traffic-penalised:limit-messages-per-interval", "at most `limit` well-formed messages per interval left a score for the sender",
+				ns.wit(map[string]any{"score": sc, "expiration": ex, "limit": rlLimit, "interval_ms": 400, "requests_this_interval": n}))
+			return
+		}
+	}
+	if !ns.V.Connected(ns.O) {
+		k.Violation("legal-traffic-disconnected", "a peer that only sent legal traffic was disconnected", ns.wit(nil))
+		return
+	}
+	a := 1 + k.R.Intn(99)
+	ns.V.Conn.ApplyPenalty(ns.O.ID(), a)
+	sc, ex, _ := g.Score("127.0.0.3")
+	if sc != a || ex != -1 || !ns.V.Connected(ns.O) || ns.bannedAtV("127.0.0.3") {
+		k.Violation("sub-threshold-penalty-banned-or-disconnected", "a penalty below 100 banned or disconnected the peer, or was not recorded as given",
+			ns.wit(map[string]any{"penalty": a, "score": sc, "expiration": ex}))
+		return
+	}
+	k.Nontrivial(fmt.Sprintf("net-legal|intervals=%d|ok=%d|pen=%d", intervals, okIntervals, a/25))
+	k.Sample(ns.wit(nil))
+}
+
+// runNetBlacklist: a blacklisted IP can neither connect nor be dialled; other IPs can.
+func runNetBlacklist(k *mon.Case) {
+	ns := &netScenario{k: k, trigger: "blacklist", rlPen: 100}
+	var err error
+	defer ns.stop()
+	if ns.V, err = ns.startNode("127.0.0.2", true, []string{"127.0.0.3"}); err == nil {
+		if ns.O, err = ns.startNode("127.0.0.3", false, nil); err == nil {
+			ns.B, err = ns.startNode("127.0.0.4", false, nil)
+		}
+	}
+	if err != nil {
+		k.Inconclusive("node-start-failed")
+		return
+	}
+	bg := context.Background()
+	for round := 0; round < 2; round++ {
+		for _, dir := range []string{"offender-dials", "victim-dials"} {
+			cctx, cancel := context.WithTimeout(bg, 3*time.Second)
+			var e error
+			if dir == "offender-dials" {
+				e = ns.O.ConnectTo(cctx, ns.V)
+			} else {
+				e = ns.V.ConnectTo(cctx, ns.O)
+			}
+			cancel()
+			up := e == nil && !waitUntil(300*time.Millisecond, func() bool { return !ns.V.Connected(ns.O) })
+			ns.log("blacklisted %s -> err=%v up=%v", dir, e, up)
+			k.Count("blacklist_connect_attempts", 1)
+			if up {
+				k.Violation("blacklisted-ip-connected:"+dir, "a connection with a permanently blacklisted IP was established", ns.wit(nil))
+				return
+			}
+		}
+		if err := ns.B.ConnectTo(bg, ns.V); err != nil || !ns.V.Connected(ns.B) {
+			k.Violation("non-blacklisted-ip-refused", "a peer on an IP that is neither banned nor blacklisted could not connect", ns.wit(map[string]any{"error": fmt.Sprint(err)}))
+			return
+		}
+		if round == 0 {
+			time.Sleep(time.Duration(200+k.R.Intn(600)) * time.Millisecond)
+		}
+	}
+	k.Nontrivial(fmt.Sprintf("net-blacklist|%d", k.Index%4))
+	k.Sample(ns.wit(nil))
+}
+
+func main() {
+	mon.Main(mon.Options{
+		Property: "C18",
+		Level:    "exploration",
+		Rule: "direct tier: random penalty/check sequences over 1-5 IPs (v4, v6, v4-mapped spellings, with and without /tcp,/udp,/p2p suffixes), blacklists, threshold walks, pauses and expiry on a connectionGater (expiration 1-2 s, sweep 50 ms) against a per-IP sum model; " +
+			"concurrent callers (2-8 goroutines) with a linearizability check of the returned totals; the rateLimit object on a socket-less Peer against a counter model. " +
+			"Network tier: victim 127.0.0.2, offender 127.0.0.3, optional bystander 127.0.0.4; 11 offences (malformed / unknown-procedure request and response envelopes, 3 invalid sync-style requests, rate above limit with penalty 100 and 2x50, accumulated ApplyPenalty, BanPeer), legal traffic at the limit over several intervals, blacklist. " +
+			"Non-trivial per distinct (IPs, blacklisted, banned, shape, expiry observed) / (offence, bystander, dial direction, disconnected).",
+		Assumptions: []string{
+			"must-refuse is judged only while unix(after call) <= unix(before ban) + expiration; must-accept only 400 sweep intervals (20 s) past the latest possible expiry; in between nothing is judged",
+			"network tier: newPeer hard-wires a 24 h ban and a 10 s sweep; the hook re-runs the gater's own start() with 4 s / 50 ms",
+			"all of 127.0.0.0/8 is local and libp2p dials from the listening address (checked per scenario: otherwise inconclusive)",
+			"30 s for one message to be processed on loopback is treated as 'never'",
+		},
+		RacePkgs: []string{"p2p"},
+	}, func(c *mon.Ctx) {
+		const batch = 25
+		c.Cases("gater", c.N(64, 3200), func(k *mon.Case) {
+			// one case = a batch of independent sequences, each on its own gater, run side by side
+			// (they spend most of their time waiting for expiry)
+			var wg sync.WaitGroup
+			for i := 0; i < batch; i++ {
+				i := i
+				wg.Add(1)
+				go func() {
+					defer wg.Done()
+					defer func() {
+						if r := recover(); r != nil {
+							st := string(debug.Stack())
+							k.Violation("panic:gater:"+mon.PanicKey(r, st), "panic in gater sequence", map[string]any{"panic": fmt.Sprint(r), "stack": st})
+						}
+					}()
+					sk := *k
+					sk.R = c.RNG(fmt.Sprintf("gater-sub-%d", i), k.Index)
+					runGaterSequence(&sk, i)
+				}()
+			}
+			k.Watch("gater batch", 5*time.Minute, wg.Wait)
+			k.Eval(batch - 1)
+		})
+		c.Cases("gater-concurrent", c.N(64, 3200), func(k *mon.Case) {
+			for i := 0; i < 8; i++ {
+				sk := *k
+				sk.R = c.RNG(fmt.Sprintf("gater-conc-sub-%d", i), k.Index)
+				runGaterConcurrent(&sk, i)
+			}
+			k.Eval(7)
+		})
+		c.Cases("ratelimit-direct", c.N(32, 1600), runRateLimitDirect)
+		c.Cases("net-legal", c.N(8, 200), runNetLegal)
+		c.Cases("net-blacklist", c.N(4, 100), runNetBlacklist)
+		c.Cases("net-ban", c.N(33, 1100), runNetBan)
+	})
 }
